@@ -425,9 +425,9 @@ def _jobs_for(prop, tier):
     if prop == 'C01':
         return jobs_c01(tier) + jobs_carry(tier) + jobs_numpy_getitem(tier) + jobs_option_getitem(tier) + jobs_ellipsis(tier) + jobs_missing(tier) + jobs_advanced(tier)
     if prop == 'C05':
-        return jobs_c05(tier) + [j for j in jobs_option_below(tier) if j[1][3] in ('num', 'localindex')] + jobs_flatten(tier) + jobs_axis0(tier, 'localindex')
+        return jobs_c05(tier) + [j for j in jobs_option_below(tier) if j[1][3] in ('num', 'localindex')] + jobs_flatten(tier) + jobs_axis0(tier, 'localindex') + jobs_record_below(tier, ('num', 'localindex'))
     if prop == 'C09':
-        return jobs_c09(tier) + [j for j in jobs_option_below(tier) if j[1][3] in ('rpad', 'rpad_and_clip')] + jobs_simplify(tier) + jobs_fillna(tier) + jobs_bytemask(tier)
+        return jobs_c09(tier) + [j for j in jobs_option_below(tier) if j[1][3] in ('rpad', 'rpad_and_clip')] + jobs_simplify(tier) + jobs_fillna(tier) + jobs_bytemask(tier) + jobs_record_below(tier, ('rpad', 'rpad_and_clip'))
     if prop == 'C11':
         return jobs_simplify(tier)
     if prop == 'C07':
@@ -4855,3 +4855,59 @@ def jobs_record_keys(tier):
     if tier != 'quick':
         q += [((), 0, 'a'), (None, 0, '0'), (('ab', 'a'), 2, 'a'), (None, 1, 'x')]
     return [(h_record_keys, a, 900) for a in q]
+
+
+# ------------------------------------------------------------------------------------------------ C05 / C09: operations below a record array
+@guard
+def h_record_below(nfields, length, meth):
+    """RecordArray asked for num / localindex / rpad / rpad_and_clip at an axis below itself: every field content is handed the same request, the
+    answer is a record array with the same fields in the same order holding what each content answered - and exactly as many records as before,
+    also when the field contents are longer than the record array"""
+    nc = NodeCtx(['REC', 'IA', 'IDX', 'CNT', 'UTL', 'KD', 'IDS'], [], unwind=max(12, 3 * nfields + 10))
+    mm, frag, extra = BELOW_METHODS[meth]
+    F = nc.derived_stub(frag, meth)
+    this, vals, lens = build_record(nc, nfields, length)
+    nc.m.record('ret', {})
+    args = [BV(x) for x in extra] + [BV(1), BV(0)]
+    out = nc.m.call('_ZNK7awkward11RecordArray%s' % mm, [Ptr('ret', 0), this] + args)
+    obls = [('%s does not raise' % meth, out.raised)]
+    calls = [(pc, a) for pc, nm, a in out.trace if nm == meth]
+    obls.append(('every field content is asked', z3.BoolVal(len(calls) != nfields)))
+    for pc, a in calls:
+        want_args = list(extra) + [1, 0]
+        obls.append(('a field content receives the same request (same axis, same depth)', z3.And(pc, z3.Or([x != w for x, w in zip(a, want_args)]))))
+    BASE = 1 << 32
+    res = decode(nc, out.mem, nc.m.cell('ret', 0))
+    if res['cls'] != 'record' or len(res['contents']) != nfields:
+        obls.append(('the answer is a record array with the same fields', z3.BoolVal(True)))
+    else:
+        obls.append(('the number of records is unchanged', res['length'] != length))
+        for k in range(nfields):
+            for i in range(length):
+                obls += compare(nodeh.at(res['contents'][k], i), Elem(F(BV(i + k * BASE))), 'record %d field %d' % (i, k))
+
+    def replay(model, ent):
+        ev = lambda t: model.eval(t, model_completion=True).as_signed_long()
+        ls = [min(ev(x), length + 2) for x in lens]
+        prog, fields = '', []
+        for k, nlists in enumerate(ls):
+            # field k: nlists lists [100k + i] * (i % 3)
+            rows = [[100 * k + i] * (i % 3) for i in range(nlists)]
+            flat = [x for r in rows for x in r]
+            offs_, acc = [0], 0
+            for r in rows:
+                acc += len(r); offs_.append(acc)
+            prog += 'i64 %s listoffset64 %s ' % (fullnative.ints(flat), fullnative.ints(offs_))
+            fields.append(rows)
+        prog += 'tuple %d %d ' % (nfields, length)
+        ref = {'num': lambda l: len(l), 'localindex': lambda l: list(range(len(l))), 'rpad': lambda l: py_pad(l, 3, False, None), 'rpad_and_clip': lambda l: py_pad(l, 3, True, None)}[meth]
+        op = {'num': 'num 1', 'localindex': 'localindex 1', 'rpad': 'rpad 3 1', 'rpad_and_clip': 'rpadclip 3 1'}[meth]
+        exp = [{str(k): ref(fields[k][i]) for k in range(nfields)} for i in range(length)]
+        return akrun_check(prog + op, exp, '%d records over fields of %s lists: %s(axis=1)' % (length, ls, meth))
+    return mdischarge(nc.m, 'RecordArray::%s below the node, %d fields, %d records' % (meth, nfields, length), obls, [('a field content longer than the record array', lens[0] > length)] if nfields else [], replay=replay,
+                      prefer=[x <= length + 2 for x in lens], extra=dict(bounds='%d fields, %d records (case split); field content lengths symbolic (>= number of records)' % (nfields, length)))
+
+
+def jobs_record_below(tier, meths):
+    q = [(2, 2), (1, 0)] if tier == 'quick' else [(2, 2), (1, 0), (3, 1), (1, 3), (0, 2)]
+    return [(h_record_below, (nf, L, m_), 900) for nf, L in q for m_ in meths]
